@@ -475,8 +475,9 @@ func (w *c14World) stableCut(want roleCount, needParked bool, watchdog time.Dura
 		}
 		// while input is still being fed, look only now and then (a goroutine
 		// snapshot stops the world)
-		if w.led.recs.Load() == nil {
-			// the data plane has not initialized its pool yet
+		if !router.VerifIsRunning(w.star.C) || w.led.recs.Load() == nil {
+			// the data plane has not initialized its pool yet (the running
+			// flag is an atomic set after initPacketPool)
 			allParked = false
 		} else if allParked || time.Since(lastSnap) > 40*time.Millisecond {
 			lastSnap = time.Now()
